@@ -663,6 +663,172 @@ fn strategy() -> impl Strategy<Value = Case> {
     })
 }
 
+// ------------------------------------------------------------------------------------------ libFuzzer layer
+
+#[derive(Clone, Debug, Serialize, Deserialize)]
+struct RawCase {
+    /// Bytes | Str | Json — the fuzz target the input belongs to
+    kind: String,
+    /// selector byte + input, hex
+    data_hex: String,
+}
+
+fn kind_of(name: &str) -> Option<Kind> {
+    match name {
+        "Bytes" => Some(Kind::Bytes),
+        "Str" => Some(Kind::Str),
+        "Json" => Some(Kind::Json),
+        _ => None,
+    }
+}
+
+const TARGETS: [(&str, &str); 3] = [("fuzz_stm_bytes", "Bytes"), ("fuzz_key_strings", "Str"), ("fuzz_json_messages", "Json")];
+
+/// the same decision as the fuzz target's, with the generated layer's extra oracles (allocation bound)
+fn raw_case_fn(c: &RawCase) -> Report {
+    let mut rep = Report::new();
+    let (Some(kind), Ok(data)) = (kind_of(&c.kind), hex::decode(&c.data_hex)) else {
+        rep.discard("malformed raw case");
+        return rep;
+    };
+    if data.is_empty() {
+        rep.discard("empty");
+        return rep;
+    }
+    let t: Vec<&Entry> = table().iter().filter(|e| e.kind == kind).collect();
+    let entry = t[data[0] as usize % t.len()];
+    let input = &data[1..];
+    rep.label(format!("raw:{}", entry.name));
+    let limit = 64usize.saturating_mul(input.len()).saturating_add(16 << 20);
+    alloc_track::start();
+    let res = catch(|| (entry.decode)(input));
+    let peak = alloc_track::stop();
+    if peak > limit {
+        rep.violation(format!("alloc:{}", entry.name), format!("{}: a single allocation of {peak} bytes for an input of {} bytes", entry.name, input.len()));
+    }
+    match res {
+        Err(p) => {
+            rep.violation(format!("panic:{}:{}", entry.name, normalise_location(&p)), format!("{} panicked: {p}", entry.name));
+        }
+        Ok(Ok(reenc)) => match catch(|| (entry.decode)(&reenc)) {
+            Ok(Ok(again)) if again == reenc => {}
+            other => {
+                rep.violation(format!("reencode-unstable:{}", entry.name), format!("{}: re-encoding of an accepted input is not a fixed point ({:?})", entry.name, other.map(|r| r.map(|v| v.len()))));
+            }
+        },
+        Ok(Err(_)) => {}
+    }
+    rep.nontrivial(format!("raw {} {}", entry.name, c.data_hex.len()));
+    rep
+}
+
+/// `p-stm C05-corpus <dir>`: write the honest seeds as libFuzzer corpus files (selector byte + encoding)
+pub fn dump_corpus(dir: &str) -> i32 {
+    for (target, kind) in TARGETS {
+        let kind = kind_of(kind).unwrap();
+        let d = std::path::Path::new(dir).join(target);
+        let _ = std::fs::create_dir_all(&d);
+        let t: Vec<&Entry> = table().iter().filter(|e| e.kind == kind).collect();
+        for (i, e) in t.iter().enumerate() {
+            if let Some(ss) = seeds().get(e.name) {
+                for (j, s) in ss.iter().enumerate() {
+                    let mut f = vec![i as u8];
+                    f.extend_from_slice(s);
+                    let _ = std::fs::write(d.join(format!("seed-{i:02}-{j:02}")), f);
+                }
+            }
+        }
+    }
+    0
+}
+
+/// `p-stm C05-raw <kind> <file>`: evaluate one raw fuzz input in a fresh process (exit 0 = holds, 1 = violation)
+pub fn raw_one(kind: &str, file: &str) -> i32 {
+    let Ok(data) = std::fs::read(file) else { return 2 };
+    let rep = raw_case_fn(&RawCase { kind: kind.to_string(), data_hex: hex::encode(data) });
+    match rep.outcome {
+        vcore::Outcome::Violation { key, what } => {
+            println!("RAW-VIOLATION key={key} what={what}");
+            1
+        }
+        _ => 0,
+    }
+}
+
+/// run the libFuzzer targets (thorough tier): fixed work (-runs), seeded, fresh corpus copy per run
+fn run_fuzzers(check: &Check, runs_per_worker: u64) -> Vec<RawCase> {
+    let mut found = vec![];
+    let fuzz_dir_owned = format!("{}/fuzz", std::env::var("VERIF_HARNESS_DIR").unwrap_or_else(|_| "/verif/harness".into()));
+    let fuzz_dir = fuzz_dir_owned.as_str();
+    let scratch = check.scratch_dir().join("fuzz");
+    let _ = std::fs::remove_dir_all(&scratch);
+    let _ = std::fs::create_dir_all(&scratch);
+    dump_corpus(scratch.join("corpus").to_str().unwrap());
+    let build = std::process::Command::new("cargo")
+        .args(["+nightly", "fuzz", "build", "--fuzz-dir", "."])
+        .current_dir(fuzz_dir)
+        .env("CARGO_NET_OFFLINE", "true")
+        .output();
+    match build {
+        Ok(o) if o.status.success() => {}
+        other => {
+            check.inconclusive(format!("cargo fuzz build failed: {:?}", other.map(|o| String::from_utf8_lossy(&o.stderr).chars().rev().take(400).collect::<String>().chars().rev().collect::<String>())));
+            return found;
+        }
+    }
+    for (target, kind) in TARGETS {
+        let corpus = scratch.join("corpus").join(target);
+        let artifacts = scratch.join("artifacts").join(target);
+        let _ = std::fs::create_dir_all(&artifacts);
+        // also feed the committed regression inputs
+        let reg = std::path::Path::new("/verif/corpus/c05-regressions").join(target);
+        let mut args: Vec<String> = vec!["+nightly".into(), "fuzz".into(), "run".into(), "--fuzz-dir".into(), ".".into(), target.into(), corpus.display().to_string()];
+        if reg.is_dir() {
+            args.push(reg.display().to_string());
+        }
+        args.extend(
+            [
+                "--".to_string(),
+                format!("-runs={runs_per_worker}"),
+                format!("-seed={}", (check.seed % 0x7fff_ffff).max(1)),
+                "-max_len=16384".into(),
+                "-len_control=0".into(),
+                "-timeout=30".into(),
+                "-rss_limit_mb=4096".into(),
+                "-malloc_limit_mb=1024".into(),
+                format!("-artifact_prefix={}/", artifacts.display()),
+                format!("-fork={}", check.threads.max(1)),
+                "-ignore_crashes=0".into(),
+                "-print_final_stats=1".into(),
+            ]
+            .into_iter(),
+        );
+        let t0 = std::time::Instant::now();
+        let out = std::process::Command::new("cargo").args(&args).current_dir(fuzz_dir).env("CARGO_NET_OFFLINE", "true").output();
+        let (ok, tail) = match &out {
+            Ok(o) => (o.status.success(), String::from_utf8_lossy(&o.stderr).lines().rev().take(6).collect::<Vec<_>>().join(" | ")),
+            Err(e) => (false, e.to_string()),
+        };
+        let mut n_art = 0;
+        if let Ok(rd) = std::fs::read_dir(&artifacts) {
+            for f in rd.flatten() {
+                if let Ok(data) = std::fs::read(f.path()) {
+                    n_art += 1;
+                    found.push(RawCase { kind: kind.to_string(), data_hex: hex::encode(data) });
+                }
+            }
+        }
+        check.note_section(
+            &format!("libfuzzer:{target}"),
+            serde_json::json!({"runs_per_worker": runs_per_worker, "workers": check.threads, "wall_s": t0.elapsed().as_secs_f64(), "exit_ok": ok, "artifacts": n_art, "tail": tail.chars().take(600).collect::<String>()}),
+        );
+        if !ok && n_art == 0 {
+            check.inconclusive(format!("libFuzzer run of {target} ended abnormally without an artifact: {}", tail.chars().take(300).collect::<String>()));
+        }
+    }
+    found
+}
+
 pub fn run(args: &Args) -> i32 {
     let mut check = Check::new("C05", "exploration", args);
     check
@@ -694,5 +860,47 @@ pub fn run(args: &Args) -> i32 {
     }
     check.enumerate("honest", items.into_iter(), false, case_fn);
     check.section("mutated", strategy, t.pick(60_000, 3_000_000), case_fn);
+    // regression inputs found by the fuzzers earlier (committed), replayed in-process on every run
+    let mut raws = vec![];
+    for (target, kind) in TARGETS {
+        if let Ok(rd) = std::fs::read_dir(std::path::Path::new("/verif/corpus/c05-regressions").join(target)) {
+            let mut files: Vec<_> = rd.flatten().map(|f| f.path()).collect();
+            files.sort();
+            for f in files {
+                if let Ok(data) = std::fs::read(&f) {
+                    raws.push(RawCase { kind: kind.to_string(), data_hex: hex::encode(data) });
+                }
+            }
+        }
+    }
+    check.enumerate("fuzz-regressions", raws.into_iter(), false, raw_case_fn);
+    if t == vcore::Tier::Thorough && !check.is_replay() {
+        let found = run_fuzzers(&check, t.pick(0, 2_000_000) as u64);
+        // every artifact is re-evaluated in a fresh process first (it may abort), then in-process for the replay file
+        let exe = std::env::current_exe().unwrap();
+        let mut in_process = vec![];
+        for (i, rc) in found.iter().enumerate() {
+            let f = check.scratch_dir().join(format!("artifact-{i}.bin"));
+            let _ = std::fs::write(&f, hex::decode(&rc.data_hex).unwrap_or_default());
+            let st = std::process::Command::new(&exe).args(["C05-raw", &rc.kind, f.to_str().unwrap()]).output();
+            match st {
+                Ok(o) if o.status.code() == Some(0) => {
+                    // not reproducible with the deterministic entry function (e.g. ASan-only / timeout): keep as inconclusive
+                    check.inconclusive(format!("libFuzzer artifact #{i} ({}) does not reproduce in the deterministic entry function", rc.kind));
+                }
+                Ok(o) if o.status.code() == Some(1) => in_process.push(rc.clone()),
+                _ => {
+                    // the process died: abort / allocation failure — a violation that cannot be evaluated in-process
+                    let dir = std::path::Path::new("/verif/replays/C05");
+                    let _ = std::fs::create_dir_all(dir);
+                    let p = dir.join(format!("process-abort-{}-{i}.json", rc.kind));
+                    let _ = std::fs::write(&p, serde_json::to_string_pretty(&serde_json::json!({"property":"C05","section":"fuzz-regressions","key":"process-abort","what":"decoding aborts the process","case": rc})).unwrap());
+                    check.note_section(&format!("abort-artifact-{i}"), serde_json::json!({"replay": p.display().to_string()}));
+                    check.external_violation("process-abort", &format!("decoding this input aborts the process ({} target)", rc.kind), &p.display().to_string());
+                }
+            }
+        }
+        check.enumerate("fuzz-artifacts", in_process.into_iter(), false, raw_case_fn);
+    }
     check.finish()
 }
